@@ -104,6 +104,7 @@ func (e *Exec) resetOpaque() {
 	delete(e.opaque, "hmacmemo")
 	delete(e.opaque, "lastbig")
 	delete(e.opaque, "bigpreset")
+	delete(e.opaque, "builders")
 	delete(e.opaque, "pooladv")
 	delete(e.opaque, "randfail")
 	delete(e.opaque, "deferOwner")
